@@ -19,6 +19,19 @@ Engine.apply_user_actions, evaluated after every SUCCESSFUL bundle.
   C09.helper_cols_used          every gristHelper_Display* / gristHelper_ConditionalRule* /
                                 gristHelper_RowConditionalRule* column is referenced by the
                                 displayCol or rules of some column, field or section
+  C09.section_has_view          a section on no view (parentId 0) is the raw or record-card section
+                                of some table ("sections [point] to their table and view")
+
+Three parts: (1) seeded random histories (explore), (2) an EXHAUSTIVE sweep of every single removal
+action applicable to every seed document (removal_sweep: each column, pair of columns of one table,
+table, section, view, page, field and helper column), (3) fixed witness histories of known findings
+the random part does not reach.
+
+Seed documents 'field_display' and 'views' give FIELDS their own visible column + display helper
+(several reference columns of _grist_Views_section_field and _grist_Views_section pointing at
+_grist_Tables_column rows), laid out so that row ids COINCIDE across metadata tables (field #8 <->
+column #8, section #4 <-> column #4 ...): back-reference clean-up that mixes up row ids of different
+tables only shows there.
 
 Bound: the generator only writes reference values that exist at the time of writing (no
 deliberately dangling ids, fields only get columns of their section's table): the property is about
@@ -29,7 +42,7 @@ from vlib import common
 from vlib.rtc import eng, explore, gen
 
 ALL_SEEDS = ("basic", "refs", "lookup", "summary", "twoway", "twoway_list", "choices", "views",
-             "refs_into_summary")
+             "refs_into_summary", "field_display", "field_display_wide")
 
 # A seed document of our own: two tables with a Ref between them, an extra page with two sections,
 # a summary section, a display column for the Ref, a conditional rule on a column and on a field.
@@ -61,6 +74,66 @@ gen.SEEDS.setdefault("refs_into_summary", [
   [["AddTable", "Notes", [gen._col("about", "Ref:Orders_summary_city"), gen._col("t", "Text")]],
    ["BulkAddRecord", "Notes", [None, None], {"about": [1, 2], "t": ["x", "y"]}]],
 ])
+
+
+# Documents in which one removal hits SEVERAL reference columns of one referring metadata table, with
+# row ids that coincide across metadata tables.  People=1 (columns 1-3), Tasks=2 (columns 4-7),
+# helper columns from #8 / #4 on; fields of the Tasks page widget are #7-#9, so the field-level "show
+# column" settings primed below give field #8 the display helper column #8 (and so on), and the
+# linked section pair gets ids that are column ids too.
+gen.SEEDS.setdefault("field_display", [
+  [["AddTable", "People", [gen._col("name", "Text"), gen._col("age", "Int")]],
+   ["AddTable", "Tasks", [gen._col("title", "Text"), gen._col("owner", "Ref:People"),
+                          gen._col("backup", "Ref:People")]]],
+  [["BulkAddRecord", "People", [None, None], {"name": ["Ann", "Bob"], "age": [30, 40]}],
+   ["BulkAddRecord", "Tasks", [None, None], {"title": ["t1", "t2"], "owner": [1, 2], "backup": [2, 0]}]],
+  [["CreateViewSection", 2, 2, "detail", None, None]],       # second Tasks widget on the Tasks page
+])
+# the same with the reference columns FIRST (other id layout: Tasks columns 1-4, People 5-7) and a
+# RefList column
+gen.SEEDS.setdefault("field_display_wide", [
+  [["AddTable", "People", [gen._col("name", "Text")]],
+   ["AddTable", "Tasks", [gen._col("owner", "Ref:People"), gen._col("team", "RefList:People"),
+                          gen._col("backup", "Ref:People"), gen._col("title", "Text")]]],
+  [["BulkAddRecord", "People", [None, None, None], {"name": ["Ann", "Bob", "Cy"]}],
+   ["BulkAddRecord", "Tasks", [None, None], {"title": ["t1", "t2"], "owner": [1, 2],
+                                             "team": [["L", 1, 2], None], "backup": [2, 0]}]],
+  [["CreateViewSection", 2, 2, "detail", None, None]],
+  [["CreateViewSection", 2, 0, "record", None, None]],
+])
+
+
+def _prime_field_display(e):
+  """Every field of a Ref / RefList column that is not in a raw data section gets its own visible
+  column (the first plain column of the target table) and display formula, the way the client sets
+  "show column" on a widget's field; two widgets of the same table on one page are linked by the
+  first reference column (select-by same reference)."""
+  tables = {t["id"]: t for t in eng.meta_records(e, "_grist_Tables")}
+  byname = {t["tableId"]: t for t in tables.values()}
+  cols = {c["id"]: c for c in eng.meta_records(e, "_grist_Tables_column")}
+  raw = {t["rawViewSectionRef"] for t in tables.values()}
+  secs = {x["id"]: x for x in eng.meta_records(e, "_grist_Views_section")}
+  for f in eng.meta_records(e, "_grist_Views_section_field"):
+    c = cols.get(f["colRef"])
+    if c is None or f["parentId"] in raw or not c["type"].startswith(("Ref:", "RefList:")):
+      continue
+    target = byname.get(c["type"].split(":")[1])
+    vis = next((x for x in cols.values() if target and x["parentId"] == target["id"]
+                and x["colId"] != "manualSort" and not x["colId"].startswith("gristHelper_")), None)
+    if vis is None: continue
+    eng.apply(e, [["UpdateRecord", "_grist_Views_section_field", f["id"], {"visibleCol": vis["id"]}],
+                  ["SetDisplayFormula", tables[c["parentId"]]["tableId"], f["id"], None,
+                   "$%s.%s" % (c["colId"], vis["colId"])]])
+  placed = {}
+  for x in secs.values():
+    if x["parentId"]: placed.setdefault((x["parentId"], x["tableRef"]), []).append(x)
+  for (view, tref), ss in sorted(placed.items()):
+    refc = next((c for c in sorted(cols.values(), key=lambda c: c["id"])
+                 if c["parentId"] == tref and c["type"].startswith("Ref:")), None)
+    if len(ss) >= 2 and refc is not None:
+      eng.apply(e, [["UpdateRecord", "_grist_Views_section", ss[1]["id"],
+                     {"linkSrcSectionRef": ss[0]["id"], "linkSrcColRef": refc["id"],
+                      "linkTargetColRef": refc["id"]}]])
 
 
 def _prime_refs_into_summary(e):
@@ -168,7 +241,74 @@ def metadata_clauses(e):
                                  "gristHelper_RowConditionalRule")) and c["id"] not in used
        and not c.get("summarySourceCol")]      # a group-by copy of a helper column is no helper
   if p: out.append(("C09.helper_cols_used", {"problems": p[:6]}))
+  p = ["section #%s (table #%s) is on no view and is no table's raw / record-card section"
+       % (s["id"], s["tableRef"]) for s in secs.values()
+       if not s["parentId"] and s["id"] not in table_sections]
+  if p: out.append(("C09.section_has_view", {"problems": p[:6], "sections": [
+      s["id"] for s in secs.values() if not s["parentId"] and s["id"] not in table_sections][:6]}))
   return out
+
+
+# ------------------------------------------------------------------------------------------------
+# root causes of known deviations, computed from the state BEFORE the bundle (ghost snapshot) and the
+# state after it; only used to give a failure a canonical class, never to decide pass / fail
+# ------------------------------------------------------------------------------------------------
+
+def _denorm(v):
+  if isinstance(v, tuple):
+    if v[:1] in (("n",), ("b",)): return v[1]
+    if v[:1] == ("l",): return [_denorm(x) for x in v[1:]]
+  return v
+
+
+def _pre_records(pre, table):
+  if table not in pre: return {}
+  row_ids, cols = pre[table]
+  return {r: dict({c: _denorm(vals[i]) for c, vals in cols.items()}, id=r)
+          for i, r in enumerate(row_ids)}
+
+
+def field_causes(pre, e, detail):
+  """For every field named in a C09.field_col_in_section_table failure: was it a field of a summary
+  section that the bundle re-grouped (moved to another summary table), and if so why was it left
+  behind?  -> sorted list of cause strings ('?' when none of the known causes applies)."""
+  pf, pc = _pre_records(pre, "_grist_Views_section_field"), _pre_records(pre, "_grist_Tables_column")
+  ps, pt = _pre_records(pre, "_grist_Views_section"), _pre_records(pre, "_grist_Tables")
+  secs = {r["id"]: r for r in eng.meta_records(e, "_grist_Views_section")}
+  cols = eng.meta_records(e, "_grist_Tables_column")
+  causes = set()
+  for text in detail.get("problems", []):
+    m = re.match(r"field #(\d+) ", text)
+    f0 = pf.get(int(m.group(1))) if m else None
+    c0 = pc.get(f0["colRef"]) if f0 else None
+    s0 = ps.get(f0["parentId"]) if f0 else None
+    s1 = secs.get(f0["parentId"]) if f0 else None
+    if not (c0 and s0 and s1) or not pt.get(s0["tableRef"], {}).get("summarySourceTable") \
+        or s1["tableRef"] == s0["tableRef"] or c0["parentId"] != s0["tableRef"]:
+      causes.add("?"); continue
+    if sum(1 for x in pf.values() if x["parentId"] == s0["id"] and x["colRef"] == f0["colRef"]) > 1:
+      causes.add("two fields of the section showed the same column")
+    elif c0["isFormula"] and any(x["parentId"] == s1["tableRef"] and x["colId"] == c0["colId"]
+                                 and x["formula"] != c0["formula"] for x in cols):
+      causes.add("same-named formula column of the destination summary table has another formula")
+    else:
+      causes.add("?")
+  return sorted(causes)
+
+
+def section_causes(pre, e, detail):
+  """For every section named in a C09.section_has_view failure: was it the raw section of a summary
+  table that no longer exists?"""
+  pt = _pre_records(pre, "_grist_Tables")
+  now = {t["id"] for t in eng.meta_records(e, "_grist_Tables")}
+  causes = set()
+  for sid in detail.get("sections", []):
+    owner = [t for t in pt.values() if t["rawViewSectionRef"] == sid]
+    if owner and owner[0]["summarySourceTable"] and owner[0]["id"] not in now:
+      causes.add("ex-raw section of a removed summary table")
+    else:
+      causes.add("?")
+  return sorted(causes)
 
 
 # ------------------------------------------------------------------------------------------------
@@ -226,8 +366,8 @@ def requires(e, bundle):
 # generator: view / section / field / helper-column / summary actions
 # ------------------------------------------------------------------------------------------------
 
-#               0  1  2  3  4  5  6  7  8  9 10 11 12 13 14 15 16 17 18 19 20 21 22 23
-KIND_WEIGHTS = [3, 3, 1, 4, 3, 3, 4, 5, 4, 3, 3, 2, 5, 3, 2, 1, 2, 2, 2, 2, 2, 4, 3, 2]
+#               0  1  2  3  4  5  6  7  8  9 10 11 12 13 14 15 16 17 18 19 20 21 22 23 24 25
+KIND_WEIGHTS = [3, 3, 1, 4, 3, 3, 4, 5, 4, 3, 3, 2, 5, 3, 2, 1, 2, 2, 2, 2, 2, 5, 3, 2, 5, 2]
 
 
 def structure_edit(e, g):
@@ -253,7 +393,7 @@ def structure_edit(e, g):
   # summary table is only rarely used as a target here
   placed = [s for s in summaries if s["parentId"]]
   if placed and rng.random() < 0.9: summaries = placed
-  k = rng.choices(range(24), KIND_WEIGHTS)[0]
+  k = rng.choices(range(len(KIND_WEIGHTS)), KIND_WEIGHTS)[0]
   with_display = [x for x in cols if x["displayCol"]]
   fields_with_display = [x for x in fields if x["displayCol"]]
   if k == 7 and with_display and rng.random() < 0.6:      # change / clear an existing display formula
@@ -331,6 +471,28 @@ def structure_edit(e, g):
     if sc: return [["AddRecord", "_grist_Filters", None,
                     {"viewSectionRef": sec["id"], "colRef": rng.choice(sc), "filter": "{}"}]]
   if k == 21: return [["RemoveColumn", tid, c["colId"]]]
+  if k == 24:    # field-level "show column" of a reference field, the way the client sets it
+    raw = {x["rawViewSectionRef"] for x in tables}
+    byid = {x["id"]: x for x in cols}
+    cand = [x for x in fields if x["parentId"] not in raw and x["colRef"] in byid
+            and byid[x["colRef"]]["type"].startswith(("Ref:", "RefList:"))]
+    if cand:
+      f = rng.choice(cand); fc = byid[f["colRef"]]
+      vis = [x for x in cols if tname.get(x["parentId"]) == fc["type"].split(":")[1]
+             and x["colId"] != "manualSort" and not x["colId"].startswith("gristHelper_")]
+      ft = tname.get(fc["parentId"])
+      if ft and (not vis or rng.random() < 0.15):
+        return [["UpdateRecord", "_grist_Views_section_field", f["id"], {"visibleCol": 0}],
+                ["SetDisplayFormula", ft, f["id"], None, ""]]
+      if ft:
+        v = rng.choice(vis)
+        return [["UpdateRecord", "_grist_Views_section_field", f["id"], {"visibleCol": v["id"]}],
+                ["SetDisplayFormula", ft, f["id"], None, "$%s.%s" % (fc["colId"], v["colId"])]]
+  if k == 25:    # the client removes several selected columns of one table in one action
+    plain = [x["id"] for x in cols if x["parentId"] == t["id"] and x["colId"] != "manualSort"
+             and not x["colId"].startswith("gristHelper_") and not x.get("summarySourceCol")]
+    if len(plain) >= 2:
+      return [["BulkRemoveRecord", "_grist_Tables_column", sorted(rng.sample(plain, 2))]]
   if k == 22: return [["RemoveTable", t["tableId"]]]
   if k == 23:
     pages = eng.meta_records(e, "_grist_Pages")
@@ -350,6 +512,8 @@ class C09Monitor(explore.Monitor):
   def start(self, e, seed_name):
     if seed_name == "refs_into_summary":
       _prime_refs_into_summary(e)
+    if seed_name.startswith("field_display"):
+      _prime_field_display(e)
     return {"last_undo": None}
 
   def gen_bundle(self, st, e, g):
@@ -376,7 +540,13 @@ class C09Monitor(explore.Monitor):
       if eng.diff_snapshots(st["pre"], eng.snapshot(e, tables=META_TABLES)):
         st["tainted"] = "failed bundle left a trace (C04)"
       return []
-    return metadata_clauses(e)[:1]
+    out = metadata_clauses(e)[:1]
+    for clause, detail in out:
+      if clause == "C09.field_col_in_section_table":
+        detail["causes"] = field_causes(st["pre"], e, detail)
+      elif clause == "C09.section_has_view":
+        detail["causes"] = section_causes(st["pre"], e, detail)
+    return out
 
   def nontrivial(self, st, bundle, group, exc):
     return not st.get("tainted") and (exc is not None or bool(group and group.stored))
@@ -392,9 +562,134 @@ class C09Monitor(explore.Monitor):
     if clause == "C09.field_col_in_section_table" and probs and \
         all(x.endswith("is no table's raw / record-card section]") and " colRef 0 " in x for x in probs):
       return "field without column in an orphaned ex-raw section of a removed summary table"
+    causes = detail.get("causes") or []
+    route = next((k for k in ("UpdateSummaryViewSection", "DetachSummaryViewSection", "RemoveColumn",
+                              "RemoveRecord", "BulkRemoveRecord", "ModifyColumn", "RemoveTable",
+                              "ApplyUndoActions")
+                  if any(isinstance(a, list) and a and a[0] == k for a in bundle)), kinds)
+    if clause == "C09.field_col_in_section_table" and causes and "?" not in causes:
+      return "field of a re-grouped summary section left on the old table's column: " + "; ".join(causes)
+    if clause == "C09.section_has_view" and causes == ["ex-raw section of a removed summary table"]:
+      return "ex-raw section of a removed summary table left behind by %s" % route
     if clause == "C09.refs_resolve":
       return "dangling %s after %s" % (",".join(detail.get("kinds", [])), kinds)
     return "%s after %s" % (clause, kinds)
+
+
+# ------------------------------------------------------------------------------------------------
+# part 2: every single removal applicable to every seed document (exhaustive over that finite space)
+# ------------------------------------------------------------------------------------------------
+
+def _seed_engine(seed_name):
+  e = eng.new_engine()
+  for b in gen.seed_history(seed_name):
+    eng.apply(e, b)
+  C09Monitor().start(e, seed_name)
+  return e
+
+
+def removal_bundles(e):
+  """One bundle per removal the document admits: each plain column (RemoveColumn), each pair of
+  plain columns of one table (the client's multi-column delete), each helper column record, each
+  table, section, view, page and field."""
+  tables = eng.meta_records(e, "_grist_Tables")
+  cols = eng.meta_records(e, "_grist_Tables_column")
+  out = []
+  for t in tables:
+    tc = [c for c in cols if c["parentId"] == t["id"] and c["colId"] != "manualSort"]
+    plain = [c for c in tc if not c["colId"].startswith("gristHelper_")]
+    out += [[["RemoveColumn", t["tableId"], c["colId"]]] for c in plain]
+    out += [[["BulkRemoveRecord", "_grist_Tables_column", [a["id"], b["id"]]]]
+            for i, a in enumerate(plain) for b in plain[i + 1:]]
+    out += [[["RemoveRecord", "_grist_Tables_column", c["id"]]] for c in tc if c not in plain]
+    out.append([["RemoveTable", t["tableId"]]])
+  out += [[["RemoveViewSection", s["id"]]] for s in eng.meta_records(e, "_grist_Views_section")]
+  out += [[["RemoveView", v["id"]]] for v in eng.meta_records(e, "_grist_Views")]
+  out += [[["RemoveRecord", "_grist_Pages", x["id"]]] for x in eng.meta_records(e, "_grist_Pages")]
+  out += [[["RemoveRecord", "_grist_Views_section_field", f["id"]]]
+          for f in eng.meta_records(e, "_grist_Views_section_field")]
+  return out
+
+
+def _sweep_worker(task):
+  seed_name, bundle = task
+  try:
+    failures, stats, _h = explore.run_history(C09Monitor(), seed_name, [bundle])
+    return {"seed_doc": seed_name, "bundle": bundle, "failures": failures[:1], "stats": stats}
+  except Exception:
+    import traceback
+    return {"crash": "%s %r: %s" % (seed_name, bundle, traceback.format_exc(limit=6))}
+
+
+def removal_sweep(rep):
+  import multiprocessing as mp
+  tasks = [(s, b) for s in ALL_SEEDS for b in removal_bundles(_seed_engine(s))]
+  with mp.get_context("fork").Pool(min(16, os.cpu_count() or 4)) as pool:
+    outs = pool.map(_sweep_worker, tasks, chunksize=8)
+  n = raised = 0
+  for o in outs:
+    if o.get("crash"):
+      rep.crash("removal sweep: " + o["crash"]); continue
+    n += o["stats"]["bundles"]; raised += o["stats"]["raised"]
+    for f in o["failures"]:
+      rep.violation("%s-%s" % (f["clause"], f["class"]), {
+        "obligation": f["clause"], "class": f["class"], "seed_doc": o["seed_doc"],
+        "history": [o["bundle"]], "detail": f["detail"], "tier": "bounded", "part": "removal_sweep",
+        "monitor": "checks.C09:C09Monitor",
+        "how_to_replay": "apply SEEDS[seed_doc] (+ the monitor's start() priming) then `history` on "
+                         "a fresh engine (vlib.rtc.explore.run_history)"})
+  cov = rep.coverage
+  cov["evaluations"] = cov.get("evaluations", 0) + n
+  cov["distinct_nontrivial"] = cov.get("distinct_nontrivial", 0) + n
+  cov["removal_sweep"] = {"removals": len(tasks), "raised": raised, "seed_documents": len(ALL_SEEDS),
+                          "exhaustive_over": "every single removal action (column, pair of columns "
+                          "of one table, helper column record, table, section, view, page, field) "
+                          "applicable to each seed document"}
+
+
+# ------------------------------------------------------------------------------------------------
+# part 3: fixed witness histories of known findings the random part does not reach
+# ------------------------------------------------------------------------------------------------
+
+class _NoRequires(C09Monitor):
+  """The same clauses without the generator's precondition: the witness below shows a column twice
+  in one section, which the random part never does (see `requires`)."""
+  def before(self, st, e, bundle):
+    st["pre"] = eng.snapshot(e, tables=META_TABLES)
+
+
+# (seed document, history, name, monitor class)
+WITNESSES = [
+  # the 'count' column of one summary table gets another formula; a summary table created later has
+  # the default formula; moving the widget there adds 'count2' and leaves the 'count' field behind
+  ("summary", [[["ModifyColumn", "A_summary_cat", "count", {"formula": "len($group) + 1"}]],
+               [["CreateViewSection", 1, 0, "record", [3], None]],
+               [["UpdateSummaryViewSection", 5, [3]]]],
+   "regroup-summary-section-same-named-formula-column-differs", C09Monitor),
+  # field #15 and the added field both show column #8 (A_summary_cat.n); only one of them follows
+  ("summary", [[["AddRecord", "_grist_Views_section_field", None, {"parentId": 5, "colRef": 8}]],
+               [["UpdateSummaryViewSection", 5, [4]]]],
+   "regroup-summary-section-with-two-fields-of-one-column", _NoRequires),
+  # the raw section #4 of A_summary_cat follows its widget to A_summary; A_summary_cat is removed
+  ("summary", [[["RemoveColumn", "A", "cat"]]],
+   "remove-groupby-source-column-orphans-raw-section", C09Monitor),
+]
+
+
+def run_witnesses(rep):
+  n = 0
+  for seed_doc, history, name, cls in WITNESSES:
+    try:
+      failures, stats, _h = explore.run_history(cls(), seed_doc, history)
+    except Exception as ex:
+      rep.crash("witness %s: %r" % (name, ex)); continue
+    n += stats["bundles"]
+    for f in failures[:1]:
+      rep.violation(f["clause"], {"obligation": f["clause"], "class": "witness:" + name,
+                                  "root_cause_class": f["class"], "seed_doc": seed_doc,
+                                  "history": history, "detail": f["detail"], "tier": "bounded"})
+  rep.coverage["evaluations"] = rep.coverage.get("evaluations", 0) + n
+  rep.coverage["witness_histories"] = len(WITNESSES)
 
 
 def main():
@@ -421,7 +716,9 @@ def main():
   rep.coverage["ref_columns_checked"] = len(ref_columns())
   from checks import C02
   C02.tune_explore(4)
-  explore.explore(rep, "checks.C09", "C09Monitor", n_quick=160, budget_quick_s=30)
+  explore.explore(rep, "checks.C09", "C09Monitor", n_quick=176, budget_quick_s=30)
+  removal_sweep(rep)
+  run_witnesses(rep)
   return rep.finish()
 
 
